@@ -15,6 +15,10 @@ func (i Intersection) String() string {
 }
 
 func (i Intersection) Compile(index Index) Iterator {
+	if len(i) == 0 {
+		// Everything matches all of no queries
+		return All{Token: AllToken}.Compile(index)
+	}
 	iterators := make([]Iterator, len(i))
 	for j, query := range i {
 		iterators[j] = query.Compile(index)
